@@ -48,6 +48,9 @@ def make_replayer():
         if bat.err:
             return False, {'error': bat.err}
         want = {'assembly': ['assembly'], 'partition': ['assembly'],
+                'epigraph-objective': ['assembly'],
+                'epigraph-variable': ['assembly'],
+                'epigraph-constraints': ['assembly'],
                 'solve-propagation': ['propagation']}.get(ob.kind, [])
         hits = {k: v for k, v in bat.result.items() if k in want}
         info = {'rerun': {'battery': 'lp', 'oracles': want},
@@ -67,6 +70,17 @@ def run(report, tier, seed):
     from contracts.py import lp_assembly_spec
     lp_assembly_spec.feed(report, tier)
     lp_assembly_spec.feed_solve(report, tier)
+    from contracts.py import objective_spec
+    try:
+        oobs = objective_spec.obligations(10000 if tier == 'quick' else 60000)
+    except KeyError as e:
+        report.error('function under contract no longer exists: %s' % e)
+        oobs = []
+    for o in oobs:
+        report.add(Ob(o['id'], o['kind'], o['status'], o['text'],
+                      'modeling.py op._inmatrixform line %s' % o['line'],
+                      by=o['by'], detail=o.get('detail'),
+                      meta={'line': o['line']}))
     report.replayer = make_replayer()
     from engine.checks import py_common
     py_common.demote_unconfirmed_shape_checks(
@@ -83,7 +97,9 @@ def run(report, tier, seed):
         'optimality / duality of the values returned (the LP solve is '
         'numerical); agreement of dense / sparse / GLPK',
         'the objective vector c and the early "already in matrix form" '
-        'return of _inmatrixform']
+        'return of _inmatrixform',
+        'the expansion of one constraint (constraint._aslinearineq) that '
+        'the objective conversion calls for every  g_j <= t_k']
     report.assumptions += [
         'coefficient shape rule of _lin (C11): the coefficient of a variable '
         'of length n in a function of length m has size (m, n), (1, n) or '
